@@ -897,6 +897,21 @@ func checkC16(d *lib.Driver, c *c16Case) error {
 		if err != nil {
 			return err
 		}
+		if c.route == "oj" {
+			// and the theorem about Marshal's tree (recompose_inverts_marshal_tree): where its hypotheses hold
+			// oj.Unmarshal(oj.Marshal(v, o)) must give the value back (ForceFloat included: integers within ±2^53)
+			w := strings.Split(c.spec.word(false, true), " ")
+			a2, err := d.Ask([]string{strings.Join([]string{"rtok", w[0], w[1], w[2], c.d.String(), valueString(c.d, c.v)}, "\t")})
+			if err != nil {
+				return err
+			}
+			if a2[0] == "yes" {
+				theoremApplies = true
+				rep.Count("theorem.marshal.applies", 1)
+			} else {
+				rep.Count("theorem.marshal.hypotheses_not_met", 1)
+			}
+		}
 		switch ans[0] {
 		case "outside", "bad-op":
 			rep.Count("model.writer."+c.route+"."+ans[0], 1)
